@@ -1,12 +1,18 @@
 #!/usr/bin/env python3
-"""Apply every kept seeded change to /repo in turn, run the check of its property (quick), undo; record who catches what.
-Writes seeded/<name>/meta.json:caught_by and seeded/MATRIX.md.  /repo must be clean and nothing else may use it meanwhile."""
+"""Apply every kept seeded change to a scratch worktree of /repo HEAD in turn, run the check of its property (quick) against that
+worktree (VERIF_REPO), undo; record who catches what.  Writes seeded/<name>/meta.json:caught_by and seeded/MATRIX.md.
+/repo itself is not touched."""
 import glob, json, os, subprocess, sys
 HERE = os.path.dirname(os.path.dirname(os.path.abspath(__file__)))
 only = sys.argv[1:]
 rows = []
 env = dict(os.environ, VERIF_EVIDENCE_DIR=os.path.join(HERE, ".work", "evidence-scratch"))
-assert subprocess.run(["git", "-C", "/repo", "status", "--porcelain", "--untracked-files=no"], capture_output=True, text=True).stdout == "", "repo dirty"
+WT = "/tmp/vs/matrix-%d" % os.getpid()
+os.makedirs("/tmp/vs", exist_ok=True)
+subprocess.run(["git", "-C", "/repo", "worktree", "add", "--detach", WT, "HEAD"], check=True, capture_output=True)
+env["VERIF_REPO"] = WT
+import atexit
+atexit.register(lambda: subprocess.run(["git", "-C", "/repo", "worktree", "remove", "--force", WT], capture_output=True))
 head = subprocess.run(["git", "-C", "/repo", "rev-parse", "--short", "HEAD"], capture_output=True, text=True).stdout.strip()
 for d in sorted(glob.glob(os.path.join(HERE, "seeded", "C*-*"))):
     name = os.path.basename(d)
@@ -16,7 +22,7 @@ for d in sorted(glob.glob(os.path.join(HERE, "seeded", "C*-*"))):
     prop = meta["property"]
     if meta.get("retired"):
         continue
-    a = subprocess.run(["git", "-C", "/repo", "apply", os.path.join(d, "patch.diff")], capture_output=True, text=True)
+    a = subprocess.run(["git", "-C", WT, "apply", os.path.join(d, "patch.diff")], capture_output=True, text=True)
     if a.returncode:
         rows.append((name, prop, "PATCH DOES NOT APPLY", ""))
         continue
@@ -29,7 +35,7 @@ for d in sorted(glob.glob(os.path.join(HERE, "seeded", "C*-*"))):
         meta["caught_by"] = {prop + " quick": {"exit": r.returncode, "violation_kinds": kinds, "repo_head": head}}
         json.dump(meta, open(os.path.join(d, "meta.json"), "w"), indent=1)
     finally:
-        subprocess.run(["git", "-C", "/repo", "checkout", "--", "."])
+        subprocess.run(["git", "-C", WT, "checkout", "--", "."])
     print(rows[-1], flush=True)
 # the matrix file is regenerated from every meta.json (so partial runs keep the other rows)
 allrows = []
